@@ -6,20 +6,21 @@
 (*                                                                         *)
 (* prov: does the source derive its edge table ("derived") or ship one     *)
 (* ("supplied").  The invariant AccessOK (normative) says every access on  *)
-(* the result succeeds with the right value.  With Mech = Mech_intended    *)
-(* TLC proves it over all histories; with Mech = Mech_observed (the code   *)
-(* as read) TLC produces the failing histories, which the harness replays. *)
+(* the result succeeds with the right value.  TLC proves it over all       *)
+(* histories for Mech_intended and for Mech_observed (the code as it is    *)
+(* now); for the pre-fix mechanism and for each single reverted fix it     *)
+(* produces the failing histories, which the harness replayed.             *)
 (* `hist` records the behaviour with the predicted outcome and store after *)
 (* every step, so that -simulate / BFS runs emit replayable behaviours.    *)
 (***************************************************************************)
 EXTENDS SliceMech, TLC
 
-CONSTANTS Observed,     \* BOOLEAN: run with Mech_observed
+CONSTANTS MechName,     \* "intended" | "observed" | "prefix" | "rev_<commit>" (SliceMech!MechNamed)
           MaxPre,       \* at most this many Materialise steps
           MaxAcc,       \* at most this many Access steps
           WithHist      \* BOOLEAN: keep the behaviour in the state (generation) or not (proof)
 
-Mech == IF Observed THEN Mech_observed ELSE Mech_intended
+Mech == MechNamed(MechName)
 
 VARIABLES prov, phase, srcStore, kind, shape, resStore, resTag, attrs, last, hist, nPre, nAcc
 vars == << prov, phase, srcStore, kind, shape, resStore, resTag, attrs, last, hist, nPre, nAcc >>
